@@ -53,6 +53,7 @@ type run struct {
 	delay        time.Duration
 	netDelay     time.Duration
 	clientDelay  map[string]time.Duration
+	cat          []*catOp
 	blocked      map[string]bool
 	start        time.Time
 	leaderTables map[string]uint64 // name -> current leader shard id, as last observed
@@ -376,6 +377,8 @@ func (r *run) execStep(st *Step) {
 		r.out.Probe("kv-" + st.Op)
 	case "raw":
 		r.execRaw(st)
+	case "ccreate", "cdelete", "clist":
+		r.execCat(st)
 	case "create":
 		n := r.node(false, st.N)
 		if n == nil || !n.up {
